@@ -130,6 +130,22 @@ def cases(rng, tier):
                 items = ["%s|%s|%s|=|%s" % (hx(z), hx(v), ";".join(lst(p) for p in polys), hx(z)) for (z, v, polys) in base_items]
                 out.append({"line": "kzgbatch %d %s %d %s" % (deg, ds, tr, "/".join(items)), "tags": ["batch-size-%d" % k, "all-evaluations-true"],
                             "expect": "ok"})
+        # openings of the ZERO polynomial (identity commitment, identity witness): the claimed value must still be 0 — batches in
+        # which EVERY entry is such an opening, claiming 0 (ok) or something else (error)
+        if deg == 8 or tier != "quick":
+            for k in (1, 2, 3):
+                for wrong_at in [None] + list(range(k)):
+                    items = []
+                    for t in range(k):
+                        z = rng.choice([0, 1, rng.fe()])
+                        npz = 1 + rng.below(2)
+                        ev = [0] * npz
+                        if wrong_at == t:
+                            ev[rng.below(npz)] = 1 + rng.below(1000)
+                        items.append("%s|%s|%s|%s|%s" % (hx(z), hx(rng.choice([1, rng.fe()])), ";".join(rng.choice(["-", "0", "0,0"]) for _ in range(npz)), lst(ev), hx(z)))
+                    out.append({"line": "kzgbatch %d %s %d %s" % (deg, ds, tr, "/".join(items)),
+                                "tags": ["batch-size-%d" % k, "zero-polynomial-openings", "claims-zero" if wrong_at is None else "claims-nonzero"],
+                                "expect": "ok" if wrong_at is None else "err:PairingCheckFailure"})
         # the same inside ONE aggregated opening: +d / -d in two of 3..4 claimed evaluations at one point (distinct powers of v)
         if deg == 8 or tier != "quick":
             for npoly in (3, 4):
